@@ -156,6 +156,9 @@ def run(case, bct, REC):
                     modq.execute(REC, bct, 'community_louvain', W, {'gamma': g, 'B': 'modularity'}, rngs(1)[0], start=st)
             modq.execute(REC, bct, 'modularity_und', W, {'gamma': g}, None)
             modq.execute(REC, bct, 'modularity_und', W, {'gamma': g}, None, start=np.arange(n) % 3 + 1)
+            # a given partition is a partition whatever its label values: zero-based, negative, gapped
+            for st in (np.arange(n) % 3, np.arange(n) % 3 - 1, (np.arange(n) % 4) * 7 - 9):
+                modq.execute(REC, bct, 'modularity_und', W, {'gamma': g}, None, start=st)
         modq.execute(REC, bct, 'modularity_und', W, {'gamma': 1.0}, None, start=np.unique(sts[4], return_inverse=True)[1] + 1)
     elif kind == 'dir':
         for g in GAMMAS:
@@ -167,6 +170,8 @@ def run(case, bct, REC):
                 modq.execute(REC, bct, 'modularity_finetune_dir', W, {'gamma': g}, rngs(1)[0], start=st)
             modq.execute(REC, bct, 'modularity_dir', W, {'gamma': g}, None)
             modq.execute(REC, bct, 'modularity_dir', W, {'gamma': g}, None, start=np.arange(n) % 3 + 1)
+            for st in (np.arange(n) % 3, np.arange(n) % 3 - 1, (np.arange(n) % 4) * 7 - 9):
+                modq.execute(REC, bct, 'modularity_dir', W, {'gamma': g}, None, start=st)
     else:
         for g in GAMMAS:
             for qt in modq.QTYPES:
@@ -180,6 +185,8 @@ def run(case, bct, REC):
                         modq.execute(REC, bct, 'modularity_probtune_und_sign', W, {'gamma': g, 'qtype': qt, 'p': .45}, rngs(1)[0], start=st)
                 if g == 1.0:
                     modq.execute(REC, bct, 'modularity_und_sign', W, {'qtype': qt, 'gamma': 1.0}, None, start=np.arange(n) % 3 + 1)
+                    for st in (np.arange(n) % 3, np.arange(n) % 3 - 1, (np.arange(n) % 4) * 7 - 9):
+                        modq.execute(REC, bct, 'modularity_und_sign', W, {'qtype': qt, 'gamma': 1.0}, None, start=st)
                     modq.execute(REC, bct, 'modularity_und_sign', W, {'qtype': qt, 'gamma': 1.0}, None, start=np.unique(sts[4], return_inverse=True)[1] + 1)
             if (W < 0).any():
                 for B in ('negative_sym', 'negative_asym'):
